@@ -141,7 +141,7 @@ class C14(runner.Check):
     kinds = sorted(rng.sample(PERTURB, rng.choice([2, 3, 4, 6])))
     plan = {'designer': name, 'seed': rng.randrange(1, 10**6), 'perturb': kinds,
             'epoch': simclock.EPOCH + rng.randrange(10**6),
-            'fresh_process': rng.random() < (0.04 if tier == 'quick' else 0.08)}
+            'fresh_process': rng.random() < 0.08}
     if rng.random() < 0.3 and name != 'sgrid':
       plan.update(kind='benchmark', dim=rng.choice([2, 3]), function=rng.choice(['Sphere', 'BuecheRastrigin', 'DifferentPowers', 'StepEllipsoidal', 'Schwefel']),
                   protocol=rng.choice(['generate_and_evaluate', 'suggest_then_partial']),
